@@ -91,6 +91,11 @@ def run(ctx):
         ctx.notes["runs_enumerated"] = len(runs)
         runs = runs[ctx.seed % stride::stride]
         ctx.exhaustive = False
+    # the recorded finding of known_findings.json is replayed in every tier (doubled lattice: frames 1, 0, 4 and the
+    # initial centers 2.5, 5.5; more clusters than frames; triangle shortcut)
+    runs.append(dict(pts=[[2], [0], [8]], metric="linf", algo="kcenters", k=4, cut=0, ti=True, init=[], initXY=[[5], [11]],
+                     form="function", dtype="int32", scale=0.5, layout="C"))
+
     def each(tr):
         ncent = max([len(e.get("ctrIdx", [])) for e in tr["events"]] + [0])
         nontriv = ncent >= 2 and ncent < len(tr["pts"])
